@@ -99,6 +99,12 @@ add512(const uint512_u *x, const uint512_u *y, uint512_u *r)
 static void
 g(uint512_u *h, const uint512_u *N, const unsigned char *m)
 {
+#ifdef XCRYPT_VERIF
+    unsigned char verif_in[128], verif_m[64];
+    memcpy (verif_in, h, 64);
+    memcpy (verif_in + 64, N, 64);
+    memcpy (verif_m, m, 64);
+#endif
 #ifdef __GOST3411_HAS_SSE2__
     __m128i xmm0, xmm2, xmm4, xmm6; /* XMMR0-quadruple */
     __m128i xmm1, xmm3, xmm5, xmm7; /* XMMR1-quadruple */
@@ -142,6 +148,9 @@ g(uint512_u *h, const uint512_u *N, const unsigned char *m)
 
     X((&data), h, (&data));
     X((&data), ((const uint512_u *) &m[0]), h);
+#endif
+#ifdef XCRYPT_VERIF
+    VERIF_EV ("streebog", verif_in, 128, verif_m, 64, h, 64);
 #endif
 }
 
